@@ -932,6 +932,9 @@ impl ConnectionCounters {
         self.established_outgoing + self.established_incoming
     }
 
+    #[cfg_attr(kani, kani::requires(verif::c02::can_inc(self, verif::c02::slot_pending(endpoint))))]
+    #[cfg_attr(kani, kani::modifies(self))]
+    #[cfg_attr(kani, kani::ensures(|_| verif::c02::stepped(old(verif::c02::snap(self)), self, verif::c02::slot_pending(endpoint), 1)))]
     fn inc_pending(&mut self, endpoint: &PendingPoint) {
         match endpoint {
             PendingPoint::Dialer { .. } => {
@@ -943,10 +946,16 @@ impl ConnectionCounters {
         }
     }
 
+    #[cfg_attr(kani, kani::requires(verif::c02::can_inc(self, verif::c02::PENDING_IN)))]
+    #[cfg_attr(kani, kani::modifies(self))]
+    #[cfg_attr(kani, kani::ensures(|_| verif::c02::stepped(old(verif::c02::snap(self)), self, verif::c02::PENDING_IN, 1)))]
     fn inc_pending_incoming(&mut self) {
         self.pending_incoming += 1;
     }
 
+    #[cfg_attr(kani, kani::requires(verif::c02::can_dec(self, verif::c02::slot_pending(endpoint))))]
+    #[cfg_attr(kani, kani::modifies(self))]
+    #[cfg_attr(kani, kani::ensures(|_| verif::c02::stepped(old(verif::c02::snap(self)), self, verif::c02::slot_pending(endpoint), -1)))]
     fn dec_pending(&mut self, endpoint: &PendingPoint) {
         match endpoint {
             PendingPoint::Dialer { .. } => {
@@ -958,6 +967,9 @@ impl ConnectionCounters {
         }
     }
 
+    #[cfg_attr(kani, kani::requires(verif::c02::can_inc(self, verif::c02::slot_established(endpoint))))]
+    #[cfg_attr(kani, kani::modifies(self))]
+    #[cfg_attr(kani, kani::ensures(|_| verif::c02::stepped(old(verif::c02::snap(self)), self, verif::c02::slot_established(endpoint), 1)))]
     fn inc_established(&mut self, endpoint: &ConnectedPoint) {
         match endpoint {
             ConnectedPoint::Dialer { .. } => {
@@ -969,6 +981,9 @@ impl ConnectionCounters {
         }
     }
 
+    #[cfg_attr(kani, kani::requires(verif::c02::can_dec(self, verif::c02::slot_established(endpoint))))]
+    #[cfg_attr(kani, kani::modifies(self))]
+    #[cfg_attr(kani, kani::ensures(|_| verif::c02::stepped(old(verif::c02::snap(self)), self, verif::c02::slot_established(endpoint), -1)))]
     fn dec_established(&mut self, endpoint: &ConnectedPoint) {
         match endpoint {
             ConnectedPoint::Dialer { .. } => {
@@ -1067,4 +1082,9 @@ impl PoolConfig {
         self.max_negotiating_inbound_streams = v;
         self
     }
+}
+
+#[cfg(kani)]
+pub(crate) mod verif {
+    include!(concat!(env!("LIBP2P_VERIF"), "/hooks/swarm_connection_pool.rs"));
 }
